@@ -10,7 +10,7 @@ def H(name, fn, twins=(), **kw):
     return d
 
 SUBSIDY = [s for s in P31["slices"] if s["name"] == "GetBlockSubsidy"]
-SLICES = TXSLICES + T.CONSTS + T.FUNCS + [T.FRAG_TXINPUTS_CALL, T.FRAG_FEES, T.FRAG_CBLIMIT] + SUBSIDY
+SLICES = TXSLICES + T.CONSTS + SUBSIDY + T.FUNCS + [T.FRAG_TXINPUTS_CALL, T.FRAG_FEES, T.FRAG_CBLIMIT]
 REASONS = ["bad-txns-inputs-missingorspent", "bad-txns-premature-spend-of-coinbase", "bad-txns-inputvalues-outofrange", "bad-txns-in-belowout", "bad-txns-fee-outofrange",
            "bad-txns-nonfinal", "bad-txns-accumulated-fee-outofrange", "bad-cb-amount"]
 PLAN = {
